@@ -182,8 +182,10 @@ def r3(ctx):
     bcfg = cfg_of(bpi)
     ka = [n for n in bcfg.stmts((ast.Assign,)) if norm(n.ast.targets[0]) == "pkt_type" and norm(n.ast.value) == "PacketType.KEEP_ALIVE"]
     if ctx.require("C12.R3", bpi, "KEEP_ALIVE selection in _build_packet_impl", len(ka), 1):
-        conds = sorted((norm(t), p) for (t, p) in bcfg.conditions_of(ka[0].id, loop_exits=False))
-        want = sorted([("len(msgs) == 0", True), (bpi.params[2], True), ("self.status == ConnectionStatus.CONNECTED", True)])
+        kcc = CondCtx(ctx.folder, bpi.module, bpi.cls)
+        conds = sorted(repr(l) for (t, p) in bcfg.conditions_of(ka[0].id, loop_exits=False) for l in kcc.literal(t, p))
+        want = sorted(repr(l) for (t, p) in ((ast.parse("len(msgs) == 0", mode="eval").body, True), (ast.parse(bpi.params[2], mode="eval").body, True),
+                                              (ast.parse("self.status == ConnectionStatus.CONNECTED", mode="eval").body, True)) for l in kcc.literal(t, p))
         ctx.check(conds == want, "C12.R3", bpi, "KEEP_ALIVE iff nothing selected and flag set and CONNECTED",
                   "the keep-alive must not depend on anything else (for example on queue contents)", witness=conds, line=ka[0].lineno)
     # a keep-alive packet is really built: pkt_type != UNKNOWN -> header + Packet.create([]) ; covered by C05.R5 early-return shape
